@@ -256,11 +256,19 @@ pub fn run_main(props: &[Property], id: &str, tier: Tier, seed: u64) -> i32 {
     let rundir = format!("{}/run/{}", vdir, id);
     let _ = std::fs::remove_dir_all(&rundir);
     std::fs::create_dir_all(&rundir).expect("create run dir");
-    let evidence_path = format!("{}/evidence/{}.json", vdir, id);
+    // a run restricted by VERIF_SUBS (development aid) never overwrites the evidence file
+    let evidence_path = format!("{}/evidence/{}{}.json", vdir, id, if std::env::var("VERIF_SUBS").map_or(false, |v| !v.is_empty()) { ".partial" } else { "" });
     let _ = std::fs::create_dir_all(format!("{}/evidence", vdir));
 
     let mut jobs = Vec::new();
+    // development aid: VERIF_SUBS=a,b restricts the run to sub-checks whose name contains a or b
+    let only: Option<Vec<String>> = std::env::var("VERIF_SUBS").ok().filter(|v| !v.is_empty()).map(|v| v.split(',').map(|x| x.to_string()).collect());
     for s in &prop.subs {
+        if let Some(o) = &only {
+            if !o.iter().any(|x| s.name().contains(x.as_str())) {
+                continue;
+            }
+        }
         let n = s.shards(tier);
         for shard in 0..n {
             jobs.push(Job { sub: s.name().to_string(), shard, nshards: n, out: format!("{}/{}-{}.json", rundir, sanitize(s.name()), shard) });
